@@ -140,3 +140,14 @@ Theorem C06_state_space_py_transit_is_the_model_two_loci :
     Transition_transit OpsR n nl P s = transit OpsR P s.
 Proof. exact (gen_transit_two_loci OpsR). Qed.
 Print Assumptions C06_state_space_py_transit_is_the_model_two_loci.
+
+(* with recombination rate 0 and every lineage linked, the TRANSLATED Transition.transit has no transition of non-zero rate into a state
+   with an unlinked lineage (proofs/SourceTwoLoci.v: r0_no_unlinking_unbounded transported along the equivalence above) *)
+From PG Require Import proofs.SourceTwoLoci.
+Theorem C06_state_space_py_r0_no_unlinking : forall (n nl : nat) (P : params (T:=R)) (s t : state) (r : R),
+  nl = n_loci s -> n_loci s = 2%nat -> p_lc P = true -> same_loci s -> rows1 (lin s) -> rows1 (lnk s) -> n_blocks s = 1%nat ->
+  p_rec P = 0%R -> lnk s = lin s ->
+  In (t, r) (Transition_transit OpsR n nl P s) ->
+  (exists l d b : nat, unl t l d b <> 0%nat) -> r = 0%R.
+Proof. exact source_r0_no_unlinking. Qed.
+Print Assumptions C06_state_space_py_r0_no_unlinking.
